@@ -149,7 +149,130 @@ fn generate(seed: u64, n_cases: usize, tier: &str) {
             }
         }
     }
+    domain_family(&mut out, seed, n_cases, tier);
     out.flush();
+}
+
+/// Input classes the main generator never produced (input-domain audit): appended as a separately
+/// seeded family `d<k>` so the random cases `r<k>` above stay exactly as they were.
+///  * long datasets (hundreds of values; thorough: up to 1 500) - the property is about ANY finite
+///    sequence, the random cases stop at 30 / 50 values;
+///  * zero spelled `-0`, `-0.0`, `0.000` (sign-negative / scaled zeros of `Decimal`) and equal
+///    values with different scales (`1.5`, `1.50`, `1.500000`);
+///  * extreme-but-exact magnitudes: 1e-10 .. 1e12 with up to 6 significant digits, and values with
+///    12-15 significant digits below 1e11 (sum of <= 1 500 such values stays far below 2^96, so `+` is exact;
+///    mean / M / variance / std_dev are compared to 1e-18 relative as everywhere).
+fn domain_family(out: &mut Out, seed: u64, n_cases: usize, tier: &str) {
+    let mut rng = Rng::new(seed ^ 0xD0A1_17D0_A117);
+    let extra = (n_cases / 10).max(if n_cases > 0 { 6 } else { 0 });
+    let long_max = if tier == "thorough" { 1500 } else { 400 };
+    let zeros = ["-0", "-0.0", "0.000", "0", "-0.000000"];
+    for k in 0..extra {
+        out.case(format!("d{}", k + 1));
+        let class = k % 6;
+        let mut xs: Vec<String> = Vec::new();
+        match class {
+            // long dataset, one of the ordinary value mixes
+            0 => {
+                let len = if k < 6 { rng.range(150, long_max) } else { rng.range(100, 260) };
+                let mix = rng.below(4);
+                for _ in 0..len {
+                    xs.push(match mix {
+                        0 => value(&mut rng, 0),
+                        1 => value(&mut rng, 1),
+                        2 => value(&mut rng, 2),
+                        _ => dec_str(123_456_000 + rng.range(-3, 3), 3),
+                    });
+                }
+            }
+            // zeros in every spelling, among small values of both signs (first / last / only value too)
+            1 => {
+                let len = rng.range(1, 12);
+                for _ in 0..len {
+                    xs.push(if rng.chance(50) { rng.pick(&zeros).to_string() } else { value(&mut rng, 0) });
+                }
+                if rng.chance(50) {
+                    xs.insert(0, rng.pick(&zeros).to_string());
+                }
+            }
+            // equal values with different scales (ties that are not textually equal)
+            2 => {
+                let len = rng.range(2, 15);
+                let base = rng.range(-40, 40);
+                for _ in 0..len {
+                    let m = base + rng.range(-1, 1);
+                    let z = rng.range(0, 5) as u32;
+                    // m/10 written with z extra trailing zeros
+                    let d = Decimal::new(m * 10i64.pow(z), 1 + z);
+                    xs.push(d.to_string());
+                }
+            }
+            // extreme-but-exact magnitudes, one regime per case: tiny (1e-12 .. 1e-4, both signs) or
+            // huge (1e4 .. 1e12, ONE sign per case: with both signs the sum can cancel to almost
+            // nothing while the 28-digit running mean carries an absolute error of ~1e-16, which is
+            // `decimal rounding`, not a defect, but more than the 1e-18 the comparison allows)
+            3 => {
+                let len = rng.range(1, 25);
+                let tiny = rng.chance(50);
+                let sign = if rng.chance(50) { 1 } else { -1 };
+                for _ in 0..len {
+                    xs.push(if tiny {
+                        dec_str(rng.range(-9_999, 9_999), rng.range(8, 12) as u32)
+                    } else {
+                        dec_str(sign * rng.range(1, 999_999) * 10i64.pow(rng.range(4, 6) as u32), 0)
+                    });
+                }
+            }
+            // tiny next to huge in one dataset (1e-10 .. 1e12, huge values of one sign per case, see
+            // above), with exact boundary values
+            4 => {
+                let len = rng.range(2, 25);
+                let sign = if rng.chance(50) { 1 } else { -1 };
+                let marks_tiny = ["0.00000001", "-0.00000001", "0.0000000001", "-0.000000000001"];
+                // ONE huge mark per dataset: two different marks 1e-8 apart at 1e12 form a tight cluster
+                // whose spread is below the ~1e-16 resolution of the 28-digit running mean there
+                // (std_dev then deviates by ~1e-17 absolute: decimal rounding, see ASSUMPTIONS)
+                let marks_huge = [*rng.pick(&["1000000000000", "999999999999.99999999", "100000000000.00000001"])];
+                for _ in 0..len {
+                    xs.push(match rng.below(5) {
+                        0 => rng.pick(&marks_tiny).to_string(),
+                        1 => {
+                            let h = rng.pick(&marks_huge);
+                            if sign < 0 { format!("-{h}") } else { h.to_string() }
+                        }
+                        2 => dec_str(rng.range(-999_999, 999_999), rng.range(7, 10) as u32),
+                        3 => dec_str(sign * rng.range(1, 999_999) * 1_000_000, 0),
+                        _ => value(&mut rng, 0),
+                    });
+                }
+            }
+            // many significant digits (12-15) with scale 4..10: |x| < 1e11, so that the squared
+            // deviations of M stay below 2^96 (beyond that the real code panics with
+            // `Multiplication overflowed`, the overflow regime excluded in ASSUMPTIONS)
+            _ => {
+                let len = rng.range(1, 25);
+                for _ in 0..len {
+                    let m = rng.range(-999_999_999_999_999, 999_999_999_999_999);
+                    xs.push(dec_str(m, rng.range(4, 10) as u32));
+                }
+            }
+        }
+        for v in &xs {
+            out.line(format!("push {v}"));
+        }
+        if xs.len() >= 2 && class != 0 && rng.chance(50) {
+            out.line("reset");
+            let mut ys = xs.clone();
+            if rng.chance(50) {
+                ys.reverse();
+            } else {
+                ys.sort_by(|a, b| parse_dec(a).cmp(&parse_dec(b)));
+            }
+            for v in &ys {
+                out.line(format!("push {v}"));
+            }
+        }
+    }
 }
 
 fn main() {
